@@ -350,6 +350,7 @@ sink_write_buffer(void *buffer, size_t size, size_t weight)
 
   VERIF_YIELD(VS_SINK_WRITE, 0);
   xlock(&sink_mutex);
+  VERIF_EVENT(VE_WRITE, size, weight, 0);
   push(output_q, block);
   xsignal(&sink_cond);
   xunlock(&sink_mutex);
@@ -551,6 +552,7 @@ primary_thread(void)
   work_units = num_worker;
 
   process->init();
+  VERIF_EVENT(VE_RUN_BEGIN, decompress, num_worker, total_out_slots);
   select_task();
   init_io();
 
@@ -569,6 +571,10 @@ primary_thread(void)
   assert(in_slots == total_in_slots);
   assert(out_slots == total_out_slots);
   assert(work_units == num_worker);
+#ifdef KJN_LBZIP2_VERIF
+  verif_qdump();
+#endif
+  VERIF_EVENT(VE_RUN_END, in_slots, out_slots, work_units);
 
   xraise(SIGUSR2);
 }
@@ -581,6 +587,7 @@ copy_on_input_avail(void *buffer, size_t size)
 {
   sched_lock();
   out_slots--;
+  VERIF_EVENT(VE_COPY, size, out_slots, 0);
   sched_unlock();
 
   sink_write_buffer(buffer, size, size);
@@ -710,4 +717,7 @@ work(void)
       failf(&ispec, "not a valid bzip2 file");
     }
   }
+#ifdef KJN_LBZIP2_VERIF
+  verif_flush();
+#endif
 }
